@@ -40,7 +40,7 @@ def verify_function(ct, label=None, params=None, observe=None):
     rep.summaries = []
     t0 = time.time()
     try:
-        m, node = repo.find(ct.qualname)
+        m, node = repo.find(ct.qualname.split("@")[0])
     except (KeyError, FileNotFoundError, SyntaxError) as e:
         rep.status, rep.detail = "unbound", "cannot load %s: %r" % (ct.qualname, e)
         return rep
@@ -54,11 +54,29 @@ def verify_function(ct, label=None, params=None, observe=None):
             rep.status, rep.detail = "unsupported", "decorator @%s on %s is not modelled" % (dn, ct.qualname)
             return rep
     params = params if params is not None else ct.params
+    full_node = node
+    region = getattr(ct, "region", None)
+    if region is not None:
+        # verify a REGION = a contiguous run of top-level statements of the function; its live-in variables are the
+        # contract's params (their declared types are assumptions about what precedes), the posts speak about locals
+        import copy as _copy
+        body = node.body
+        idx = [k for k, stt in enumerate(body) if region[0](stt)]
+        jdx = [k for k, stt in enumerate(body) if region[1](stt)]
+        if not idx or not jdx or jdx[-1] < idx[0]:
+            rep.status, rep.detail = "unbound", "region of %s not found in current source" % ct.qualname
+            return rep
+        node = _copy.copy(node)
+        node.body = body[idx[0]:jdx[-1] + 1]
+        node.args = _copy.deepcopy(node.args)
+        node.args.args, node.args.defaults, node.args.kwonlyargs, node.args.kw_defaults = [_ast.arg(arg=pn) for pn, _ in params], [], [], []
+        rep.region = "statements %d..%d of %d (lines %s-%s); the rest of the function is not under this contract" % (
+            idx[0], jdx[-1], len(body), getattr(node.body[0], "lineno", "?"), getattr(node.body[-1], "end_lineno", "?"))
     worklist = [[]]
     seen = set()
     cls = None
-    if "." in repo.split_qualname(ct.qualname)[1]:
-        cls_q = ct.qualname.rsplit(".", 1)[0]
+    if "." in repo.split_qualname(ct.qualname.split("@")[0])[1]:
+        cls_q = ct.qualname.split("@")[0].rsplit(".", 1)[0]
     else:
         cls_q = None
     while worklist:
@@ -91,6 +109,9 @@ def verify_function(ct, label=None, params=None, observe=None):
                 for f in _aslist(u(a)):
                     ctx.assume(f)
             fr = Frame(m, node, ct.qualname, dict(args), 0, cls=interp.classref(cls_q) if cls_q else None)
+            if region is not None:
+                fr.loop_keys = repo.loop_keys(full_node)
+                fr.contract = ct
             fr.entry = dict(args)
             fr.entry.update({"old": ad["old"]})
             interp._cur_label = flabel
